@@ -206,3 +206,42 @@ macro_rules! harness_real_limit {
         }
     };
 }
+
+/// Stubs for the arbitrary-precision arms (decimal / big-decimal), used by harnesses whose
+/// schemas contain no decimal: symex cannot always see which `Value` variant it holds and would
+/// walk num-bigint's digit loops with symbolic operands.  The stubs fail, so a harness that
+/// *did* reach them with a real decimal would see an error, not a wrong success.
+pub fn no_sign_extend(_d: &apache_avro::Decimal, _len: usize) -> apache_avro::AvroResult<Vec<u8>> {
+    Err(apache_avro::error::Details::BigDecimalScale.into())
+}
+pub fn no_big_decimal(_d: &apache_avro::BigDecimal) -> apache_avro::AvroResult<Vec<u8>> {
+    Err(apache_avro::error::Details::BigDecimalScale.into())
+}
+pub fn no_big_decimal_de(_b: &[u8]) -> apache_avro::AvroResult<apache_avro::BigDecimal> {
+    Err(apache_avro::error::Details::BigDecimalScale.into())
+}
+
+/// `harness!` plus the decimal stubs
+#[macro_export]
+macro_rules! harness_nodec {
+    ($(#[$m:meta])* $name:ident, unwind = $u:expr, $body:block) => {
+        pub mod $name {
+            #[allow(unused_imports)]
+            use super::*;
+            $(#[$m])*
+            pub fn body() $body
+            #[cfg(kani)]
+            #[kani::proof]
+            #[kani::unwind($u)]
+            #[kani::stub(std::hash::RandomState::new, $crate::sym::fixed_state)]
+            #[kani::stub(alloc::fmt::format, $crate::sym::no_format)]
+            #[kani::stub(apache_avro::util::max_allocation_bytes, $crate::sym::limit_model)]
+            #[kani::stub(apache_avro::decimal::Decimal::to_sign_extended_bytes_with_len, $crate::sym::no_sign_extend)]
+            #[kani::stub(apache_avro::bigdecimal::serialize_big_decimal, $crate::sym::no_big_decimal)]
+            #[kani::stub(apache_avro::bigdecimal::deserialize_big_decimal, $crate::sym::no_big_decimal_de)]
+            pub fn check() {
+                body()
+            }
+        }
+    };
+}
